@@ -300,8 +300,11 @@ pub fn decompress_limited(ic: u8, data: &[u8], limit: u64) -> Result<Vec<u8>, St
 /// the error): never fails, returns the partial output.
 pub fn decompress_lenient(ic: u8, data: &[u8], limit: usize) -> Vec<u8> {
     fn drain(mut r: impl Read, limit: usize) -> Vec<u8> {
+        // one byte per read call: a decoder that fails while filling a larger buffer reports the
+        // error for the whole call and the bytes it had already produced are lost, whereas a
+        // reader pulling single bytes (as a varint parser does) receives every one of them
         let mut out = Vec::new();
-        let mut buf = [0u8; 4096];
+        let mut buf = [0u8; 1];
         while out.len() < limit {
             match r.read(&mut buf) {
                 Ok(0) | Err(_) => break,
